@@ -17,7 +17,7 @@ token lists) and never regenerated from the tree under test.
     all other unlisted codes are rejected.  Every witness and every probed
     code is replayed on `ovniemu -l` as a one-probe trace; the observation is
     whether the emulator processed the probe event or refused exactly it.
- 3. DECODING: for every listed event and four argument vectors the payload
+ 3. DECODING: for every listed event and 8 (thorough: 64) argument vectors the payload
     bytes are handed to TLC, whose Decode operator gives the description text
     (lines DEC); `ovnidump` on a trace holding those events must print it.
 
@@ -291,13 +291,15 @@ def refused_probe(o):
 # --------------------------------------------------------------------------
 # argument vectors for decoding (inputs)
 
-def arg_vectors(e):
-    """four argument vectors by declared type: small, mixed with zeros, extreme, all zero"""
-    vs = [[], [], [], []]
+def arg_vectors(e, rng, nrand):
+    """argument vectors by declared type: small, mixed with zeros, extreme, all
+    zero, then nrand seeded random ones over the whole range of each type"""
+    vs = [[] for _ in range(4 + nrand)]
     for i, a in enumerate(e["args"]):
         t = a["t"]
         if t == "str":
             vals = ["T1", "a label with spaces", "x%d{y} 100%% \"q\" ~", ""]
+            vals += ["".join(rng.choice(PRINTABLE) for _ in range(rng.randrange(0, 24))) for _ in range(nrand)]
         else:
             bits = 8 * struct.calcsize(TYPE_PACK[t])
             signed = t.startswith("i")
@@ -310,7 +312,16 @@ def arg_vectors(e):
             if t == "u64":
                 ext = 0xfedcba9876543210 - i
             vals = [small, mixed, ext, 0]
-        for k in range(4):
+            lo, hi = (-(1 << (bits - 1)), (1 << (bits - 1)) - 1) if signed else (0, (1 << bits) - 1)
+            for _ in range(nrand):
+                # half of them near a power of two (carries, sign bit), half uniform
+                if rng.random() < 0.5:
+                    x = (1 << rng.randrange(0, bits)) + rng.randrange(-2, 3)
+                    x = -x if signed and rng.random() < 0.5 else x
+                else:
+                    x = rng.randrange(lo, hi + 1)
+                vals.append(min(hi, max(lo, x)))
+        for k in range(len(vs)):
             vs[k].append(vals[k])
     return vs
 
@@ -386,7 +397,7 @@ def _main(ck, bdir, cat, rng, scratch, fast, tier):
     dcases = []
     for mc, m in cat.items():
         for e in m["events"]:
-            vecs = arg_vectors(e) if e["args"] else [[]]
+            vecs = arg_vectors(e, rng, 4 if tier == "quick" else 60) if e["args"] else [[]]
             for k, vec in enumerate(vecs):
                 dcases.append({"id": len(dcases), "mc": mc, "c": e["c"], "v": e["v"], "vec": k,
                                "args": vec, "payload": stored_payload(e, vec)})
@@ -628,5 +639,6 @@ def _main(ck, bdir, cat, rng, scratch, fast, tier):
     ]
     return ck.finish(rule="one ovniemu run per probe: every listed event in its TLC witness context, unlisted codes "
                           "(quick: edit distance 1 of a listed code + excepted + 5000 sampled; thorough: all of 8 x 94 x 94) "
-                          "plus payload-shaped variants; one ovnidump comparison per (listed event, argument vector); "
+                          "plus payload-shaped variants; one ovnidump comparison per (listed event, argument vector: 4 fixed + 4 "
+                          "(thorough 60) seeded random); "
                           "distinct by (kind, code); all are non-trivial except decodings of events without arguments")
